@@ -11,7 +11,7 @@
    monitored — it is genuinely false for some texts (relex_unstable_witness: `ss.s` -> `SS.S`, three
    tokens become one Hostname), although idempotence itself holds there. *)
 Require Import Base Overlap OverlapProofs Tables_lexer Lexer Condense ListLemmas TokenInv CondenseInv LexerProofs
-  DocumentProofs C18LexStable.
+  DocumentProofs C18LexStable C18PassesIC C18LexDots.
 Require Import Tables_titlecase TitleCase TitleCaseProofs C18Str.
 From Coq Require Import Lia Sorting.Sorted.
 
@@ -315,6 +315,156 @@ Section Str.
     - intros toks w0 rest E Hfl. apply (str_first_upper src out toks w0 rest Hcl H E Hfl).
     - apply (str_idempotent_plain src out Hla Hua Hapo Hf Hfix Hd Hdm Hp H).
   Qed.
+  (* ================= phase 4: the residue shrinks to the LEXER, for every text ================= *)
+  (* one more law of the case mappings (monitored over all code points): case variants have the same ASCII-letter
+     key — an ASCII letter has only its own two cases as variants, no other character has an ASCII letter as one *)
+  Definition ascii_case_faithful : Prop := forall a c, case_variant lower upper a c -> ickey a = ickey c.
+
+  Lemma tc_rel_Ric : ascii_case_faithful -> forall a c, tc_rel lower upper a c -> Ric a c.
+  Proof.
+    intros Hf a c [Hv|[Hin ->]]; [exact (Hf a c Hv)|].
+    cbn in Hin. destruct Hin as [<-|[<-|[<-|[]]]]; vm_compute; reflexivity.
+  Qed.
+
+  (* the passes of Document::parse do not see what title-casing changes: for EVERY text and EVERY token list *)
+  Theorem str_passes_blind (src out : text) :
+    lower_ascii_law lower -> upper_ascii_law upper -> apostrophes_caseless lower upper -> ascii_case_faithful ->
+    tcs src = Ok out -> forall t0, document_passes out t0 = document_passes src t0.
+  Proof.
+    intros Hla Hua Hapo Hf H t0. apply document_passes_ic.
+    eapply Forall2_impl_c18; [|exact (str_rel _ _ Hla Hua Hapo H)]. intros a c. apply tc_rel_Ric. exact Hf.
+  Qed.
+
+  (* H_relex reduced to H_relex_lex: when PlainEnglish::parse — the lexer alone, before any pass, without the
+     dictionary — cuts the title-cased text like the text, the document tokens (passes, metadata) are the same *)
+  Theorem str_relex_of_lexer (src out : text) :
+    lower_ascii_law lower -> upper_ascii_law upper -> apostrophes_caseless lower upper -> ascii_case_faithful ->
+    dict_meta_case_insensitive ->
+    tcs src = Ok out ->
+    plain_parse u out = plain_parse u src ->
+    doc out = doc src.
+  Proof.
+    intros Hla Hua Hapo Hf Hdm H Hlex. unfold document_tokens, document_plain. rewrite Hlex.
+    destruct (plain_parse u src) as [t0|]; cbn [bind]; [|reflexivity].
+    rewrite (str_passes_blind src out Hla Hua Hapo Hf H t0).
+    destruct (document_passes src t0) as [ts|]; cbn [bind]; [|reflexivity].
+    rewrite (attach_congr src out ts Hdm (str_rel _ _ Hla Hua Hapo H)). reflexivity.
+  Qed.
+
+  (* idempotence for EVERY text from the residue about the lexer alone *)
+  Theorem str_idempotent_lexer_partial (src out : text) :
+    lower_ascii_law lower -> upper_ascii_law upper -> apostrophes_caseless lower upper ->
+    lowercase_fixed lower is_lowercase -> apostrophes_lower_fixed lower -> ascii_case_faithful ->
+    dict_case_insensitive lower upper is_lowercase dict_canon dict_meta ->
+    dict_meta_case_insensitive ->
+    tcs src = Ok out ->
+    plain_parse u out = plain_parse u src ->
+    tcs out = Ok out.
+  Proof.
+    intros Hla Hua Hapo Hfx Hfix Hf Hd Hdm H Hlex.
+    apply (str_idempotent_partial src out Hla Hua Hapo Hfx Hfix Hd H).
+    apply (str_relex_of_lexer src out Hla Hua Hapo Hf Hdm H Hlex).
+  Qed.
+  (* ================= phase 4: texts with PERIODS ================= *)
+  (* case_stable for the class of C18LexDots: every case variant of a is a itself, or both are word characters
+     other than ASCII digits, or both characters no sub-lexer claims — and the variant is in the class *)
+  Definition case_stable2 (a : char) : Prop :=
+    forall c, case_variant lower upper a c ->
+      c = a \/ (wch u a = true /\ wch u c = true /\ char2 u c = true)
+            \/ (ochar u a = true /\ ochar u c = true /\ char2 u c = true).
+  Definition dotted_stable_text (s : text) : Prop :=
+    Forall (fun a => char2 u a = true /\ case_stable2 a) s /\ ctx_ok s = true.
+  Definition dotted_case_closed : Prop := forall a, char2 u a = true -> case_stable2 a.
+
+  Lemma dotted_stable_of_closed s : dotted_case_closed -> dotted_text u s = true -> dotted_stable_text s.
+  Proof.
+    intros Hcc Hp. apply dotted_text_Dotted in Hp. destruct Hp as [Hp Hc]. split; [|exact Hc].
+    eapply Forall_impl; [|exact Hp]. cbn beta. intros a Ha. split; [exact Ha|apply Hcc; exact Ha].
+  Qed.
+
+  Lemma dotted_stable_Dotted s : dotted_stable_text s -> Dotted u s.
+  Proof. intros [H Hc]. split; [|exact Hc]. eapply Forall_impl; [|exact H]. cbn beta. intros a [Ha _]. exact Ha. Qed.
+
+  Lemma char2_not_apo_from a : char2 u a = true -> ~ In a tc_canonical_apostrophe_from.
+  Proof.
+    intros Hp Hin. assert (Hb : In a bad2).
+    { cbn in Hin. cbn. destruct Hin as [<-|[<-|[<-|[]]]]; tauto. }
+    pose proof (char2_not_bad u a a Hp Hb) as X. rewrite N.eqb_refl in X. discriminate.
+  Qed.
+
+  Lemma dotted_rel_Rl (src out : text) : ascii_case_faithful ->
+    Forall (fun a => char2 u a = true /\ case_stable2 a) src ->
+    Forall2 (tc_rel lower upper) src out -> Forall2 (Rl u) src out /\ Forall (fun c => char2 u c = true) out.
+  Proof.
+    intros Hf HP HR. induction HR as [|a c l l' Hac _ IH]; [split; constructor|].
+    inversion HP as [|a' l0 [Pa Hcs] Pl]; subst. destruct (IH Pl) as [IH1 IH2].
+    destruct Hac as [Hv|[Hin _]]; [|exfalso; exact (char2_not_apo_from a Pa Hin)].
+    destruct (Hcs c Hv) as [->|[(W1 & W2 & Pc)|(W1 & W2 & Pc)]].
+    - split; constructor; try assumption. now left.
+    - split; constructor; try assumption. right. left. repeat split; try assumption. exact (Hf a c Hv).
+    - split; constructor; try assumption. right. right. split; assumption.
+  Qed.
+
+  (* RE-LEXING a dotted text: same document tokens, metadata included; the output is dotted again *)
+  Theorem str_relex_dotted (src out : text) :
+    lower_ascii_law lower -> upper_ascii_law upper -> apostrophes_caseless lower upper -> ascii_case_faithful ->
+    dict_meta_case_insensitive ->
+    dotted_stable_text src ->
+    tcs src = Ok out ->
+    doc out = doc src /\ dotted_text u out = true.
+  Proof.
+    intros Hla Hua Hapo Hf Hdm Hps H. pose proof (dotted_stable_Dotted _ Hps) as Hp. destruct Hps as [Hps Hctx].
+    pose proof (str_rel _ _ Hla Hua Hapo H) as HR.
+    destruct (dotted_rel_Rl _ _ Hf Hps HR) as [HRl Hp'].
+    assert (Hd' : Dotted u out).
+    { split; [exact Hp'|]. rewrite (ctx_ok_congr u src out HRl). exact Hctx. }
+    split; [|apply dotted_text_Dotted; exact Hd'].
+    apply (str_relex_of_lexer src out Hla Hua Hapo Hf Hdm H).
+    apply plain_parse_dots; assumption.
+  Qed.
+
+  Theorem str_idempotent_dotted (src out : text) :
+    lower_ascii_law lower -> upper_ascii_law upper -> apostrophes_caseless lower upper ->
+    lowercase_fixed lower is_lowercase -> apostrophes_lower_fixed lower -> ascii_case_faithful ->
+    dict_case_insensitive lower upper is_lowercase dict_canon dict_meta ->
+    dict_meta_case_insensitive ->
+    dotted_stable_text src ->
+    tcs src = Ok out ->
+    tcs out = Ok out.
+  Proof.
+    intros Hla Hua Hapo Hfx Hfix Hf Hd Hdm Hp H.
+    destruct (str_relex_dotted _ _ Hla Hua Hapo Hf Hdm Hp H) as [Hre _].
+    apply (str_idempotent_partial src out Hla Hua Hapo Hfx Hfix Hd H Hre).
+  Qed.
+
+  (* the whole property text for a dotted text, about strings *)
+  Theorem str_property_dotted (src : text) :
+    lower_ascii_law lower -> upper_ascii_law upper -> apostrophes_caseless lower upper ->
+    ascii_variant_closed lower upper -> lowercase_fixed lower is_lowercase -> apostrophes_lower_fixed lower ->
+    ascii_case_faithful ->
+    dict_case_insensitive lower upper is_lowercase dict_canon dict_meta ->
+    (forall w cc, dict_canon w = Some cc -> length w <= length cc) ->
+    dict_meta_case_insensitive ->
+    dotted_stable_text src ->
+    exists out,
+      tcs src = Ok out /\
+      length out = length src /\
+      (forall k c, nth_error out k = Some c -> exists a, nth_error src k = Some a /\ case_variant lower upper a c) /\
+      (forall toks w0 rest, doc src = Ok toks -> filter tok_word_like toks = w0 :: rest ->
+         exists a c, nth_error src (tstart w0) = Some a /\ nth_error out (tstart w0) = Some c /\
+                     is_ascii_lower c = false /\ (is_ascii_alpha a = true -> is_ascii_upper c = true)) /\
+      tcs out = Ok out.
+  Proof.
+    intros Hla Hua Hapo Hcl Hfx Hfix Hf Hd Hlen Hdm Hp.
+    destruct (str_total src Hlen) as [out H]. exists out. split; [exact H|].
+    split; [apply (str_length _ _ H)|]. split; [|split].
+    - intros k c Hc. destruct (str_case_only _ _ Hla Hua Hapo H k c Hc) as (a & Ha & Hr).
+      exists a. split; [exact Ha|]. destruct Hr as [Hv|[Hin _]]; [exact Hv|].
+      exfalso. apply dotted_stable_Dotted in Hp. destruct Hp as [Hp _]. rewrite Forall_forall in Hp.
+      apply (char2_not_apo_from a); [apply Hp; eapply nth_error_In; exact Ha|exact Hin].
+    - intros toks w0 rest E Hfl. apply (str_first_upper src out toks w0 rest Hcl H E Hfl).
+    - apply (str_idempotent_dotted src out Hla Hua Hapo Hfx Hfix Hf Hd Hdm Hp H).
+  Qed.
 End Str.
 
 (* ================= non-vacuity: the ASCII restriction of Unicode + the example dictionary ================= *)
@@ -432,3 +582,95 @@ Proof.
   split; [vm_compute; reflexivity|]. split; [vm_compute; reflexivity|]. split; [discriminate|].
   vm_compute. discriminate.
 Qed.
+
+(* ================= phase 4: non-vacuity of the new contract and of the dotted class ================= *)
+Lemma ex_ascii_case_faithful : ascii_case_faithful ex_lower ex_upper.
+Proof.
+  intros a c Hv. apply ex_variant_inv in Hv. destruct Hv as [H1 H2]. revert H1 H2.
+  unfold ascii_lower, ascii_upper, ickey, to_ascii_lower, Lexer.is_ascii_alphabetic, Lexer.is_ascii_upper,
+    Lexer.is_ascii_lower, in_range.
+  repeat brkle; cbn [andb orb]; intros; try reflexivity; lia.
+Qed.
+
+Lemma plain_char_char2 u c : plain_char u c = true -> char2 u c = true.
+Proof.
+  intros H. destruct (plain_parts u c H) as [_ [Hd Hcl]].
+  assert (Hb : mem_n c bad2 = false).
+  { unfold mem_n, bad2. cbn [existsb].
+    rewrite !(N.eqb_sym c). 
+    rewrite (plain_not_bad u c 64 H), (plain_not_bad u c 58 H), (plain_not_bad u c 91 H), (plain_not_bad u c 39 H),
+      (plain_not_bad u c 8217 H), (plain_not_bad u c 8216 H), (plain_not_bad u c 65287 H); cbn; tauto. }
+  unfold char2, wch. rewrite Hb, Hd. cbn [negb andb]. rewrite andb_true_r.
+  destruct Hcl as [->|[->| ->]]; rewrite ?orb_true_r; reflexivity.
+Qed.
+
+Lemma ex_dotted_case_closed : dotted_case_closed ascii_uni ex_lower ex_upper.
+Proof.
+  intros a Pa c Hv. destruct (N.eq_dec c a) as [->|Hne]; [now left|right; left].
+  pose proof (ex_ascii_case_faithful a c Hv) as K. apply ex_variant_inv in Hv. destruct Hv as [H1 H2].
+  assert (Hab : ((65 <= a <= 90) \/ (97 <= a <= 122))%N /\ ((65 <= c <= 90) \/ (97 <= c <= 122))%N).
+  { destruct (ascii_lower_cases a) as [[Ea Ra]|[Ea Ra]]; destruct (ascii_lower_cases c) as [[Ec Rc]|[Ec Rc]];
+      destruct (ascii_upper_cases a) as [[Ua Sa]|[Ua Sa]]; destruct (ascii_upper_cases c) as [[Uc Sc]|[Uc Sc]];
+      rewrite ?Ea, ?Ec in H1; rewrite ?Ua, ?Uc in H2; lia. }
+  destruct Hab as [Ha Hc].
+  assert (W : forall x, ((65 <= x <= 90) \/ (97 <= x <= 122))%N -> wch ascii_uni x = true /\ char2 ascii_uni x = true).
+  { intros x Hx.
+    assert (Al : Lexer.is_ascii_alphabetic x = true) by (apply alpha_spec; exact Hx).
+    assert (Dg : is_ascii_digit x = false).
+    { unfold is_ascii_digit, in_range. apply Bool.andb_false_iff. destruct Hx; [right|right]; apply N.leb_gt; lia. }
+    assert (Np : nopunct x = true).
+    { unfold nopunct, mem_n, quote_chars, punct_from_char, currency_from_char. cbn [existsb].
+      repeat match goal with |- context [N.eqb x ?k] => destruct (N.eqb_spec x k); [lia|] end. reflexivity. }
+    assert (Ws : ws3 x = false).
+    { unfold ws3, mem_n. cbn [existsb].
+      repeat match goal with |- context [N.eqb x ?k] => destruct (N.eqb_spec x k); [lia|] end. reflexivity. }
+    assert (Wx : wchar ascii_uni x = true).
+    { unfold wchar, ascii_uni. cbn [u_lingual u_alphabetic u_numeric]. rewrite Al, Dg, Np, Ws. reflexivity. }
+    assert (Wc : wch ascii_uni x = true) by (unfold wch; rewrite Wx, Dg; reflexivity).
+    split; [exact Wc|]. unfold char2. rewrite Wc, Dg.
+    assert (Bd : mem_n x bad2 = false).
+    { unfold mem_n, bad2. cbn [existsb].
+      repeat match goal with |- context [N.eqb x ?k] => destruct (N.eqb_spec x k); [lia|] end. reflexivity. }
+    rewrite Bd. reflexivity. }
+  destruct (W a Ha) as [Wa _]. destruct (W c Hc) as [Wc Pc]. repeat split; assumption.
+Qed.
+
+(* "the wordpress. a.b is. etc." : periods, a hostname, a sentence end after `is`, a Latin abbreviation *)
+Definition dot_src : text :=
+  [116; 104; 101; 32; 119; 111; 114; 100; 112; 114; 101; 115; 115; 46; 32; 97; 46; 98; 32; 105; 115; 46; 32; 101; 116; 99; 46]%N.
+
+Lemma ex_dotted_stable : dotted_stable_text ascii_uni ex_lower ex_upper dot_src.
+Proof. apply dotted_stable_of_closed; [exact ex_dotted_case_closed|vm_compute; reflexivity]. Qed.
+
+Lemma ex_dotted_run : exists out,
+  plain_text ascii_uni dot_src = false /\ dotted_text ascii_uni dot_src = true /\
+  title_case_str ascii_uni ex_lower ex_upper ex_islower ex_canon ex_meta dot_src = Ok out /\ out <> dot_src /\
+  title_case_str ascii_uni ex_lower ex_upper ex_islower ex_canon ex_meta out = Ok out /\
+  document_tokens ascii_uni ex_meta out = document_tokens ascii_uni ex_meta dot_src /\
+  dotted_text ascii_uni out = true /\
+  existsb (fun t => match tkind_ t with KHostname => true | _ => false end)
+          (match document_tokens ascii_uni ex_meta dot_src with Ok ts => ts | Panic _ => [] end) = true.
+Proof.
+  eexists. split; [vm_compute; reflexivity|]. split; [vm_compute; reflexivity|].
+  split; [vm_compute; reflexivity|]. split; [discriminate|].
+  repeat split; vm_compute; reflexivity.
+Qed.
+
+(* the FC18c witnesses carry the excluded pattern: they are outside the dotted class (and outside the plain one) *)
+Lemma fc18c_outside :
+  dotted_text ascii_uni ref_src = false /\ ctx_ok ref_src = false /\ forallb (char2 ascii_uni) wit_src = true /\
+  dotted_text ascii_uni wit_src = false /\ ctx_ok wit_src = false.
+Proof. repeat split; vm_compute; reflexivity. Qed.
+
+(* case_stable is needed: a toy Unicode table in which U+A7D3 is a word character (lingual) and U+A7D2 a character
+   no sub-lexer claims (alphabetic, not lingual) — both plain — makes the lexer tell them apart: a case mapping
+   that pairs them (as std pairs characters whose script unicode-script does not know) would let a proper noun's
+   canonical spelling turn a Word into an Unlintable token *)
+Definition toy_uni : uni :=
+  mkuni (fun _ => false) (fun _ => false) (fun c => ((c =? 42963) || (c =? 42962))%N) (fun c => (c =? 42963)%N).
+Lemma case_stable_needed :
+  plain_text toy_uni [42963%N] = true /\ plain_text toy_uni [42962%N] = true /\
+  wchar toy_uni 42963 = true /\ ochar toy_uni 42962 = true /\
+  document_plain toy_uni [42963%N] = Ok [Lexer.mktok (mkspan 0 1) Lexer.KWord] /\
+  document_plain toy_uni [42962%N] = Ok [Lexer.mktok (mkspan 0 1) Lexer.KUnlintable].
+Proof. repeat split; vm_compute; reflexivity. Qed.
